@@ -66,7 +66,6 @@ func (p *Program) wipeSnapshots(extra ...string) {
 	}
 }
 
-
 // withTrim additionally builds the worker's program with -trimpath.
 func (l *Lab) withTrim(c *vkit.Ctx) {
 	t, err := Build(l.P.Root, l.P.Shape, "trim", "-trimpath")
